@@ -464,7 +464,7 @@ func reportLoadFailure(prop, tier string, seed int, err error) int {
 func specialObligations(w *World, ex *Exec, prop string) {
 	// every MsgServer method must be under contract: a new transaction type cannot slip past the frame lemmas
 	switch prop {
-	case "C02", "C04", "C05", "C07", "C10", "C11", "C12", "C13", "C15":
+	case "C02", "C04", "C05", "C07", "C11", "C12", "C13", "C15":
 		for _, m := range msgServerMethods(w) {
 			k := "keeper.msgServer." + m
 			if _, ok := w.contracts[k]; !ok {
